@@ -420,6 +420,36 @@ def j15(rep):
                          "cannot be told" % lits)
 
 
+def j16(rep):
+    """The double-word builtins (WordTimesDouble, WordDivideDouble: the primitives under libaldor's modular arithmetic) treat
+    their operands as unsigned words on every route.  In foamj a word is an `int`; widening it with `(long) w.toSInt()` extends
+    its sign, so the low half of a dividend with its top bit set is subtracted instead of added and the product of two words
+    above 2^31 loses its high half: `mod_*(90000, 90000, 1000003)` is 21289 from Java and 975703 elsewhere.  In the methods
+    `word*Double` of foamj.Math every `toSInt()` that becomes a `long` is masked with 0xFFFFFFFFL, and the quotient and shifts
+    are the unsigned ones (`Long.divideUnsigned`, `>>>`)."""
+    text = _java_text(os.path.join(common.JAVA_RT, "Math.java"))
+    n = 0
+    for meth in ("wordTimesDouble", "wordDivideDouble"):
+        m = re.search(r"\bstatic\s+[\w\[\]<>, ]+\s+%s\s*\([^)]*\)\s*\{" % meth, text)
+        if not m:
+            raise AnalysisBroken("foamj.Math.%s not found" % meth)
+        body = text[m.end() - 1:_block(text, m.end() - 1)]
+        line = text.count("\n", 0, m.start()) + 1
+        n += 1
+        widened = re.findall(r"\(long\)\s*\w+\.toSInt\(\)(?!\s*&)", body)
+        widened += re.findall(r"\blong\s+\w+\s*=\s*\w+\.toSInt\(\)\s*;", body)
+        signed_ops = re.findall(r"[^>]>>\s*32", body) + (re.findall(r"\bfull\s*/\s*d\b|\bfull\s*%\s*d\b", body) if meth == "wordDivideDouble" else [])
+        key = "double-word-operands-unsigned:%s" % meth
+        if not widened and not signed_ops:
+            rep.ok("J16", key)
+        else:
+            rep.violation("J16", key, "lib/java/src/foamj/Math.java:%d (%s)" % (line, meth),
+                          "%s widens a word with its sign (%s): the low half of a double word whose top bit is set is taken as "
+                          "negative, so `mod_*(90000, 90000, 1000003)` is 21289 on the Java route and 975703 under the interpreter "
+                          "and in an executable" % (meth, "; ".join(x.strip() for x in (widened + signed_ops)[:3])))
+    rep.floor("double-word methods of foamj.Math", n, 2)
+
+
 def j13(rep):
     """gj0BInt writes a big-integer constant either as BigInteger.valueOf(<integer literal>) or as new BigInteger("<digits>").
     jcLiteralInteger prints through `%d`, and a Java integer literal without suffix is an `int`: the literal path is only right
